@@ -17,7 +17,7 @@ FUNCS = [("matrix_functions.py", f) for f in ("_matrix_inverse_root_eigen", "mat
 TRUSTED = [
     "ASSUMED contract of torch.linalg.eigh (exact arithmetic): A = Q diag(L) Q^T, Q orthonormal; torch.min(L) <= every L_i",
     "ASSUMED axioms of real powers: x^a > 0 for x > 0; x^a antitone in x for a < 0",
-    "CITED spectral calculus: Q f(Lambda) Q^T with f > 0 is symmetric positive definite with eigenvalues f(lambda_i), commutes with A, and is orthogonally equivariant (validated natively, bounded)",
+    "spectral calculus — Q f(Lambda) Q^T with f > 0 and Q^T Q = 1 is symmetric positive definite with eigenvalues f(lambda_i), commutes with A, and is orthogonally equivariant — is machine-checked by Lean 4 / Mathlib on every run (lemmas/C11Spectral.lean; over the reals) and additionally validated natively (bounded)",
     "machine arithmetic treated as mathematical; finiteness in floating point is sampled natively",
 ]
 ASSUMPTIONS = ["epsilon > 0, root > 0"]
@@ -25,7 +25,7 @@ EXPLANATION = "spectral form and scalar positivity/boundedness facts proved for 
 
 
 def cases(tier):
-    cs = ["diag_eigen/eigen", "diag_eigen/diagonal-any-sign", "lemma/power", "eigdecomp"]
+    cs = ["diag_eigen/eigen", "diag_eigen/diagonal-any-sign", "lemma/power", "lemma/spectral-calculus-lean", "eigdecomp"]
     cs += [f"dispatch/{c}/{s}/{d}" for c in ("eigen", "eigen-stab") for s in ("vec", "rect", "cube", "scalar0", "scalar1", "scalar11", "square") for d in ("d0", "d1")]
     return cs
 
@@ -33,6 +33,12 @@ def cases(tier):
 def run_case(case, tier, seed):
     if case.startswith("diag_eigen/"):
         return mf.run_diag_eigen(case)
+    if case == "lemma/spectral-calculus-lean":
+        from vlib.lean import lean_obligation
+        return [lean_obligation(f"lemma:spectral-calculus/spectral-form-is-symmetric-positive-definite-commuting-equivariant[{case}]", "lemma:spectral-calculus",
+                                "C11Spectral.lean", ["C11.spec_symm", "C11.spec_posDef", "C11.spec_eigen", "C11.spec_commute", "C11.spec_equivariant"], case=case,
+                                text="Lean 4 / Mathlib: for Q^T Q = 1 and d_i > 0 the matrix Q diag(d) Q^T is symmetric, positive definite, has eigenpairs (d_i, Q e_i), "
+                                     "commutes with every Q diag(l) Q^T and satisfies spec(U Q, d) = U spec(Q, d) U^T")]
     if case.startswith("lemma/"):
         return mf.run_power_lemma(case)
     if case == "eigdecomp":
